@@ -32,8 +32,9 @@ import pymbolic.traits as traits
 class Rational(primitives.Expression):
     def __init__(self, numerator, denominator=1):
         d_unit = traits.traits(denominator).get_unit(denominator)
-        numerator /= d_unit
-        denominator /= d_unit
+        # a unit divides everything: exact division, no detour through floats
+        numerator //= d_unit
+        denominator //= d_unit
         self.Numerator = numerator
         self.Denominator = denominator
 
